@@ -85,6 +85,22 @@ CHECKS = {
         "exhaustive": {"quick": False, "thorough": False},
         "trusted_base": ["reference wire decoder and border router in harness/refscion", "step bound 400*n^4 Entry::get calls"],
     },
+    "C01": {
+        "engines": [
+            eng("native-release", "chk-net", NATIVE_REL, params={"all": {"scale": 2}}),
+            eng("native-debugassert", "chk-net", NATIVE_CHK, params={"all": {"scale": 1}}, tiers=["thorough"]),
+        ],
+        "exhaustive": {"quick": False, "thorough": False},
+        "trusted_base": ["reference border router, beaconing and combination rules in harness/refscion"],
+    },
+    "C13": {
+        "engines": [
+            eng("native-release", "chk-net", NATIVE_REL, params={"all": {"scale": 4}}),
+            eng("native-debugassert", "chk-net", NATIVE_CHK, params={"all": {"scale": 1}}, tiers=["thorough"]),
+        ],
+        "exhaustive": {"quick": False, "thorough": False},
+        "trusted_base": ["reference border router in harness/refscion/src/router.rs"],
+    },
 }
 
 LEVEL = {p: "exploration" for p in CHECKS}
